@@ -18,8 +18,8 @@ import (
 type c08Input struct {
 	Stream string
 	Idx    int
-	Text   string                       // dsl / yaml / json / string
-	Files  []core.File                  // modfiles
+	Text   string                        // dsl / yaml / json / string
+	Files  []core.File                   // modfiles
 	Model  *openfgav1.AuthorizationModel // models
 	Notes  []string
 }
